@@ -160,9 +160,9 @@ End Oracles.
 Definition encodable (f : fec) (k parity : N) : bool :=
   match f with
   | RS28 | RS28US => (0 <? parity) && (k + parity <=? 256)
-  | Raptor => negb ((k =? 2) || (k =? 3))
+  | Raptor => negb ((k =? 2) || (k =? 3)) && (k + parity <=? 65536)   (* 16-bit ESI of the Raptor FEC Payload ID (D46) *)
+  | RaptorQ => k + parity <=? 16777216                                 (* 24-bit ESI of the RaptorQ FEC Payload ID (D46) *)
   | NoCode => k <=? 65536          (* 16-bit ESI of the No-Code FEC Payload ID (D39) *)
-  | _ => true
   end.
 
 Definition max_source_blocks_number (f : fec) : N :=
